@@ -652,7 +652,7 @@ func runC07(c *core.Ctx) core.Meta {
 				if r, isR := in.(*ssa.Return); isR && len(r.Results) == 1 {
 					pv := prov.Of(r.Results[0])
 					if strings.Contains(pv, "ByteSizePerLane") {
-						ok = strings.Contains(pv, "RegIndex()*4)") && strings.Contains(pv, "*recv.ByteSizePerLane)")
+						ok = core.ProvHas(pv, "RegIndex()*4)") && core.ProvHas(pv, "*recv.ByteSizePerLane)")
 						st3.Sample("timing vector register offset: %s", short(pv))
 					}
 				}
@@ -810,13 +810,13 @@ func runC07(c *core.Ctx) core.Meta {
 				st4.Instances++
 				a := core.CallOf(in).Args
 				d, s := prov.Of(a[0]), prov.Of(a[1])
-				okD := (strings.Contains(d, "VRegOffset") && strings.Contains(d, "ByteSizePerLane*")) || strings.Contains(d, "SRegOffset")
+				okD := (strings.Contains(d, "VRegOffset") && core.ProvHas(d, "ByteSizePerLane*")) || strings.Contains(d, "SRegOffset")
 				okS := s == "make(slice)"
 				var lenOK bool
 				if ms, ok := a[1].(*ssa.MakeSlice); ok {
 					lp := prov.Of(ms.Len)
-					lenOK = strings.Contains(lp, "CodeObject.WIVgprCount*4") && strings.Contains(d, "VRegOffset") ||
-						strings.Contains(lp, "CodeObject.WFSgprCount*4") && strings.Contains(d, "SRegOffset")
+					lenOK = core.ProvHas(lp, "CodeObject.WIVgprCount*4") && strings.Contains(d, "VRegOffset") ||
+						core.ProvHas(lp, "CodeObject.WFSgprCount*4") && strings.Contains(d, "SRegOffset")
 				}
 				st4.Ob(okD && okS && lenOK)
 				st4.Sample("resetRegisterValue: copy(%s, zero[%v])", short(d), lenOK)
